@@ -120,7 +120,7 @@ CLAIMS["C17"] = dict(text="bounded symbolic model checking of the numpy-only mes
                     "U(2) (explicit 4-angle parametrisation) with a unit-modulus diagonal; (3) ALL FIVE meshes reconstruct every 3x3 phased permutation (each of the 6 "
                     "permutations with an arbitrary phase on every non-zero entry: the exact zeros drive the division-by-zero branches; thorough: 4x4, 24 "
                     "permutations) and rectangular / triangular every 3x3 block unitary U(2)+phase; (4) a non-unitary 2x2 input is refused by all five meshes",
-                    design_ref="5/C17", note=NOTE + "; partial claim: takagi/williamson/bloch_messiah (LAPACK) and sun_compact are not encodable; end-to-end on dense unitaries for the MZ meshes and for sizes > 2 are outside (dense 3x3 rectangular in the thorough tier)")
+                    design_ref="5/C17", note=NOTE + "; partial claim: takagi/williamson/bloch_messiah (LAPACK) and sun_compact are not encodable; end-to-end on dense unitaries for the MZ meshes and for sizes > 2 are outside")
 CLAIMS["C13"] = dict(text="bounded symbolic model checking + CrossHair: (1) for single-band loop bodies (squeezer, one or two beamsplitter loops, rotation, "
                     "homodyne on the leading mode) with N in {2,3} concurrent modes, T<=3 (4 thorough) time bins, shift 'default' and 1, symbolic "
                     "per-bin parameter arrays, the real unrolled program (TDMProgram.unroll on N modes) and an explicit loop with a fresh mode per pulse "
